@@ -618,6 +618,9 @@ func (g *TransferGen) opRelay() {
 
 func (g *TransferGen) Run(nOps int) {
 	g.setup()
+	if g.mt && g.script != 0 {
+		g.RunMtRefunds()
+	}
 	if !g.mt {
 		switch g.script {
 		case 1:
@@ -755,6 +758,83 @@ func (g *TransferGen) nftXfer(i, signer int, class, id, rcpt, dst, relay string)
 	g.stat("script.transfer." + ErrClass(res.Codespace, res.Code))
 	g.nftAfterTransfer(c, class, id, g.w.Acct(i, signer).String(), p)
 	return g.track(p, c.ChainName)
+}
+
+// mtXfer = MsgMtTransfer + ledger bookkeeping
+func (g *TransferGen) mtXfer(i, signer int, class, id, rcpt, dst, relay string, amount uint64) *tpkt {
+	c := g.chain(i)
+	p, res := g.w.MtTransfer(c, signer, class, id, rcpt, dst, relay, "", amount)
+	g.stat("script.mttransfer." + ErrClass(res.Codespace, res.Code))
+	g.mtAfterTransfer(c, class, id, g.w.Acct(i, signer).String(), p)
+	return g.track(p, c.ChainName)
+}
+
+// RunMtRefunds: scripted refunds of multi tokens. Units of a native class go A -> B; on B part
+// of the vouchers is forwarded to a third chain for a receiver that chain cannot decode (error
+// acknowledgement there, refund of *locked* vouchers on B); a further A -> B transfer names an
+// undecodable receiver (error acknowledgement on B, refund of locked native units on A); at
+// the end every voucher goes home. Balances, supplies and escrows are checked after each stage.
+func (g *TransferGen) RunMtRefunds() {
+	w := g.w
+	n := len(w.Chains)
+	a, b := 0, 1
+	if g.r.Chance(50) {
+		a, b = 1, 0
+	}
+	A, B := g.chain(a), g.chain(b)
+	class := w.MtIssue(A, 0)
+	if class == "" {
+		return
+	}
+	amt := uint64(6 + g.r.Intn(20))
+	id, res := w.MtMint(A, 0, class, "", amt, w.Acct(a, 1).String())
+	g.mtAfterMint(A, class, id, amt, res)
+	if res.Code != 0 {
+		return
+	}
+	g.mtIds[A.ChainName+"|"+class] = append(g.mtIds[A.ChainName+"|"+class], id)
+	had := map[string]bool{}
+	for _, cl := range g.mtClasses(b) {
+		had[cl] = true
+	}
+	k1 := amt - 2
+	t1 := g.mtXfer(a, 1, class, id, w.Acct(b, 1).String(), B.ChainName, "", k1)
+	if t1 == nil || !g.deliver(t1) {
+		return
+	}
+	g.tokenOracles()
+	vclass := ""
+	for _, cl := range g.mtClasses(b) {
+		if !had[cl] {
+			vclass = cl
+		}
+	}
+	if vclass == "" {
+		return
+	}
+	bad := []string{"not-an-address", "0x52908400098527886E0F7030069857D2E4169EE7"}[g.r.Intn(2)]
+	if n >= 3 {
+		relay := ""
+		if g.relay && b == 0 {
+			relay = w.Names[1]
+		}
+		if t2 := g.mtXfer(b, 1, vclass, id, bad, w.Names[2], relay, 1+uint64(g.r.Intn(3))); t2 != nil {
+			g.deliver(t2)
+			g.stat("script.mt.forwarded-voucher-refund")
+		}
+		g.tokenOracles()
+	}
+	if t3 := g.mtXfer(a, 1, class, id, bad, B.ChainName, "", 1); t3 != nil {
+		g.deliver(t3)
+		g.stat("script.mt.native-refund")
+	}
+	g.tokenOracles()
+	if t4 := g.mtXfer(b, 1, vclass, id, w.Acct(a, 2).String(), A.ChainName, "", k1); t4 != nil {
+		if g.deliver(t4) {
+			g.stat("script.mt.all-home")
+		}
+	}
+	g.tokenOracles()
 }
 
 // RunForge: a voucher-shaped *native* class. Chain A escrows dog/<id> for a voucher on B; an
